@@ -38,9 +38,7 @@ Definition cum_step (rf : @reducer V) (cell : V * Z) (row : V * bool) : (V * Z) 
 
 Definition cumulative (op : cumop) (skip_na : bool) (gk : list Z) (vals : list V)
     (ngroups : nat) (mask : option (list bool)) : list V :=
-  let rows := map (fun i => (get (-1) gk i, (get (null o) vals i,
-                     match mask with None => true | Some m => get false m i end)))
-                  (seq 0 (length gk)) in
+  let rows := mk_rows gk vals mask in
   kscan (cum_init op, 0) (cum_step (reducer_of o (cum_reducer op skip_na))) (cum_na op)
         rows (repeat (cum_init op, 0) ngroups).
 
